@@ -91,7 +91,17 @@ def observe(circuit, uids):
         if not set(syms) <= expect:
             problems.append("symbolic expression has variables %s outside the expected names" % sorted(set(syms) - expect))
     except Exception as e:  # noqa
-        if type(e).__name__ not in ("NotImplementedError",):
+        # C16 is about names: a circuit that the library refuses to evaluate at all (inadmissible transmission-line configurations
+        # raise NotANumberImpedance numerically and fail symbolically as well) has no expression whose names could be wrong;
+        # that the exports exist for circuits that can be evaluated is C20's obligation
+        refused = False
+        try:
+            import numpy as _np
+            with _np.errstate(all="ignore"):
+                circuit.get_impedances(_np.array([1.0, 100.0]))
+        except Exception:  # noqa
+            refused = True
+        if type(e).__name__ not in ("NotImplementedError",) and not refused:
             problems.append("to_sympy raised %s" % type(e).__name__)
     return {"order": order, "typed": typed, "names": names, "fit": fits}, problems
 
